@@ -22,7 +22,7 @@ BOUNDED = [
      'bound': '<= 4 files; sizes from the boundary family around alignment 4, min, max, 2*max (max <= 64); '
               'argument lists with repeats/overlaps/symlinks; pre-existing targets absent/shorter/equal/longer; '
               'encrypted x {aes_gcm, chacha20} x {blake2b, sha2, sha3}; concurrency 1,2,5; thorough adds 600 seeded random cases. '
-              'The 16 MiB read piece of _stream_files is NOT reached (a closure default that cannot be shrunk without editing /repo).'},
+              'The 16 MiB read piece of _stream_files is NOT reached (a closure default that cannot be shrunk without editing /repo).; two cases on a SLOW backend (40-60 ms per stream upload) with more chunks than the producer/worker queue holds'},
 ]
 TRUSTED = [
     'vf symbolic executor (/verif/vf): encoding of the Python subset (DESIGN 2.2)',
